@@ -148,18 +148,17 @@ def placeholder(ctx, prog, rule):
     Rg = Resolver(g)
     ok_empty = False
     for bi in g.cfg():
-        t = g.blocks[bi]["term"]
-        if t["k"] == "switch":
-            dl = op_place(t["discr"])
-            d = strip(Rg.place(dl)) if dl else None
-            if d and d[0] == "binop" and d[1] in ("Ne", "Eq") and 0 in (const_val(d[2]), const_val(d[3])):
-                other = d[3] if const_val(d[2]) == 0 else d[2]
-                o = strip(other)
-                if o[0] == "call" and o[1].endswith("Seek::seek"):
-                    e = switch_edges(g, bi)
-                    nonzero = e["otherwise"] if d[1] == "Ne" else e.get("0")
-                    # the non-zero branch must not reach an Ok return
-                    ok_empty = g.ok_reachable(start=[nonzero]) is None
+        te = int_test_edges(g, Rg, bi)
+        if te is None:
+            continue
+        val, cases, others = te
+        o = strip(val)
+        while o[0] == "cast":
+            o = strip(o[2])
+        if o[0] == "call" and o[1].endswith("Seek::seek") and 0 in cases:
+            # every non-zero outcome must not reach an Ok return
+            nonzero = [s for k, s in cases.items() if k != 0] + others
+            ok_empty = all(g.ok_reachable(start=[s]) is None for s in nonzero)
     ctx.ob(rule, "empty-device/PagedWriter::new", ok_empty, "PagedWriter::new fails when seek(End(0)) != 0, so the placeholder is the first content of the device")
 
 
